@@ -91,6 +91,8 @@ class Site:
 LINK_FORMS = [
     '<a href="%s">x</a>', '<area href="%s">', '<form action="%s"></form>', '<link rel="next" href="%s">',
     '<meta http-equiv="refresh" content="5; url=%s">', "<A HREF='%s'>x</A>", '<a class=k href=%s>x</a>',
+    # the keyword of a refresh value as generators and hand-written pages spell it
+    '<meta http-equiv="refresh" content="0; URL=%s">', '<META HTTP-EQUIV="Refresh" CONTENT="3;Url=%s">',
 ]
 INLINE_FORMS = [
     '<img src="%s">', '<script src="%s"></script>', '<link rel="stylesheet" href="%s">', '<table background="%s"></table>',
@@ -160,6 +162,10 @@ def resource_key(url):
     tail = '/' if path.endswith('/') and path != '/' else ''
     path = posixpath.normpath(path) + tail if path != '/' else '/'
     return (u.scheme.lower(), (u.hostname or '').lower(), u.port or {'http': 80, 'https': 443}.get(u.scheme.lower()), path, u.query)
+
+
+# the other host's own site (Site.to_server serves it under Host: b.test)
+OTHER_PAGES = {'/': {'kind': 'html', 'links': [('/x', False)]}, '/x': {'kind': 'leaf'}}
 
 
 FRAGMENT_ONLY_LINKS = True       # the fragment-only join defect (extra request of the directory) was repaired by de6baa6
@@ -342,6 +348,8 @@ def gen_options(rng, levelfree=False):
         o['quota'] = rng.choice(['inf', '0'])
     if rng.random() < 0.2:
         o['sitemaps'] = True
+    if rng.random() < 0.15 and not o['no_parent']:
+        o['span_hosts'] = True        # the links to the other host (its own small site, same server, told apart by Host) are followed
     return o
 
 
@@ -384,6 +392,8 @@ def option_argv(o):
         a += ['--quota', o['quota']]          # 'inf' / '0': no quota, spelled out
     if o.get('sitemaps'):
         a.append('--sitemaps')
+    if o.get('span_hosts'):
+        a.append('--span-hosts')
     if o.get('convert_links'):
         a.append('--convert-links')       # a second queue (saved files to convert) and a pipeline after the downloads
     return a
@@ -422,6 +432,8 @@ class RefCrawl:
                 return {'kind': 'error'} if self.run_index == 0 else {'kind': 'leaf'}
             return p
         if u.hostname == OTHER:
+            if self.o.get('span_hosts') and u.scheme == 'http' and (u.port or 80) == 80:
+                return OTHER_PAGES.get(u.path + ('?' + u.query if u.query else ''), {'kind': 'missing'})
             return {'kind': 'offsite'}
         return {'kind': 'missing'}
 
@@ -441,7 +453,7 @@ class RefCrawl:
                     return False
             elif not o['recursive']:
                 return False
-        if u.hostname not in self.start_hosts:
+        if u.hostname not in self.start_hosts and not o.get('span_hosts'):
             return False
         if self.tries and not tries < self.tries:
             return False
